@@ -254,7 +254,10 @@ class Evaluator:
                     elif (b.get('copy') or b.get('move')) and bargs:
                         obj.update(self.raw(bargs[0]))
                 elif b['k'] == 'inhctor':
-                    raise NotPure('inheriting constructor')
+                    g = self.F.fn(b['fn']) if b.get('fn') is not None else None
+                    if g is None:
+                        raise NotPure('inherited constructor without a body')
+                    obj.update(self.construct(g, list(args), depth + 1))
             elif i['t'] in ('member', 'indirect'):
                 try:
                     obj[i['name']] = self.ev(i['e'], ctor, obj, env, depth)
